@@ -11,3 +11,8 @@ pub use node_storage::*;
 pub(crate) use resource_node::*;
 pub(crate) use stat_prepare_slot::*;
 pub(crate) use stat_slot::*;
+
+#[cfg(feature = "verif_hooks")]
+pub use self::base::{BucketLeapArray, BucketWrap, LeapArray, MetricBucket, MetricTrait, SlidingWindowMetric};
+#[cfg(feature = "verif_hooks")]
+pub use self::resource_node::ResourceNode;
